@@ -858,6 +858,7 @@ def check_upgrade(ctx):
     pol = f.params[0]
     ok = False
     n = 0
+    order_bad = snap_bad = None
     for p in t.paths:
         stores = [e for e in p.events if e.kind == 'store' and isinstance(
             e.node, ast.Subscript) and U(e.node.value) == pol]
@@ -879,6 +880,53 @@ def check_upgrade(ctx):
             else:
                 ok = False
                 break
+            # the old name is removed *before* the new one is written: when
+            # a default changed under the same name the two are one key
+            i_store = p.events.index(e)
+            pops = [i for i, x in enumerate(p.events) if x.kind == 'call'
+                    and method_call(x.node, 'pop') and U(
+                        method_call(x.node)[0]) == pol] + [
+                i for i, x in enumerate(p.events) if x.kind == 'del']
+            differ = any(c.kind == 'test' and isinstance(
+                c.expr, ast.Compare) and isinstance(
+                    c.expr.ops[0], (ast.Eq, ast.NotEq)) and
+                'deprecated_rule.name' in U(t.expand(c.expr)) and (
+                    c.pol != isinstance(c.expr.ops[0], ast.Eq))
+                for c in p.conds[:e.nconds])
+            if pops and '.pop(' not in vt and min(pops) > i_store and \
+                    not differ:
+                order_bad = order_bad or e
+            # the value comes from a snapshot taken before any rename
+            loops = [i for i, c in enumerate(p.conds) if c.kind == 'loop']
+            for x in ast.walk(e.value):
+                if isinstance(x, ast.Subscript) and isinstance(
+                        x.value, ast.Name) and x.value.id.startswith('SYM_'):
+                    d = t.en.defs.get(x.value.id)
+                    if isinstance(d, ast.Call) and (
+                            (isinstance(d.func, ast.Name) and d.func.id ==
+                             'dict') or method_call(d, 'copy')) and pol in U(
+                                 t.expand(d)):
+                        made = [ev for ev in p.events
+                                if ev.sym == x.value.id]
+                        if made and loops and made[0].nconds > loops[0]:
+                            snap_bad = snap_bad or made[0]
+    F = W.split(':')[0]
+    ctx.ob('C18.UPGRADE', order_bad is None, '%s:%d' % (F, order_bad.line)
+           if order_bad else W, f.qual, 'order of removing and writing',
+           'the deprecated name is removed before the new name is written'
+           if order_bad is None else
+           'the new name is written before the deprecated name is removed: '
+           'when a default changed its check under the same name both are '
+           'one key, and the operator\'s override is deleted from the '
+           'upgraded file')
+    ctx.ob('C18.UPGRADE', snap_bad is None, '%s:%d' % (F, snap_bad.line)
+           if snap_bad else W, f.qual, 'snapshot of the operator\'s policy',
+           'values are read from a copy taken before any rename'
+           if snap_bad is None else
+           'the copy of the operator\'s policies the values are read from '
+           'is taken inside the loop over the namespaces: names removed by '
+           'an earlier namespace are gone, so a deprecated policy that was '
+           'split over several namespaces is upgraded for the first only')
     ctx.ob('C18.UPGRADE', ok and n > 0, W, f.qual,
            'rename of deprecated names (%d stores)' % n,
            'the value under a deprecated name is moved to the new name'
